@@ -7,6 +7,19 @@ func init() {
 			New: "\t\t\t\t\tdefer func() { resp.Ns = dnsutil.FilterRRsToZone(resp.Ns, signer) }()\n\n\t\t\t\t\t// RFC 4035 §5.3.4: a wildcard-expanded answer is only",
 			Why: "foreign unsigned NSEC records reach the wildcard next-closer proof (seeded C01)"},
 	})
+	addMutants("C13", []Mutant{
+		{ID: "c13-wire-lookup-serves-expired", File: "middleware/cache/failure_cache.go", Expect: "C13-R8",
+			Old: "\t\t\tinternalcache.WireNameEqualsPresentation(name, entry.question.Question.Name) &&\n\t\t\tnow.Before(entry.retryAfter) {", New: "\t\t\tinternalcache.WireNameEqualsPresentation(name, entry.question.Question.Name) {",
+			Why: "expired failure entries (kept as streak history) served on the wire route (seeded C13)"},
+		{ID: "c13-zone-lookup-serves-expired", File: "middleware/cache/failure_cache.go", Expect: "C13-R8",
+			Old: "\t\tif !ok || !now.Before(entry.retryAfter) {\n\t\t\treturn true\n\t\t}", New: "\t\tif !ok {\n\t\t\treturn true\n\t\t}"},
+	})
+	addMutants("C09", []Mutant{
+		{ID: "c09-sweep-only-config-seeded", File: "middleware/resolver/auto_trust_anchor.go", Expect: "C09-R10",
+			Old: "\tfor tag, ta := range kskCurrent {\n\t\tif ta.State == StateRevoked || ta.State == StateRemoved {\n\t\t\tcontinue\n\t\t}\n\t\tif _, tombstoned := tombstones[dnskeyMaterialFP(ta.DNSKey)]; tombstoned {",
+			New: "\tfor tag, ta := range kskCurrent {\n\t\tif err == nil || ta.State == StateRevoked || ta.State == StateRemoved {\n\t\t\tcontinue\n\t\t}\n\t\tif _, tombstoned := tombstones[dnskeyMaterialFP(ta.DNSKey)]; tombstoned {",
+			Why: "state-file entries exempt from tombstone precedence: a crash between the two writes republishes a revoked key (seeded C09)"},
+	})
 	addMutants("C12", []Mutant{
 		{ID: "c12-restart-loses-ledger", File: "middleware/resolver/resolver.go", Expect: "C12-R6",
 			Old: "\t\t\t\trequestID: rs.requestID,\n\t\t\t\twork:      rs.work,\n", New: "\t\t\t\trequestID: rs.requestID,\n",
